@@ -18,7 +18,7 @@
     by-product values have the declared shape (session attribute words are there), and at the end of a response no
     listed region is still live; (3) every message takes at least one byte, so the stream loop ends by running out
     of input, not of iterations.
-    NOT PROVED: warn mode (there the property C08 "never aborts" is decided by the oracle); the tie to /repo is the
+    Warn mode is not part of this property; its counterpart is proved under C08 (C08_never_aborts_every_root).  The tie to /repo is the
     crash oracle (exception classes escaping from the implementation on random / mutated / mistyped inputs) and
     the model correspondence (outcome classes incl. crashes).
     Statement file: theorem statements, [exact], Print Assumptions only. *)
